@@ -137,6 +137,16 @@ func init() {
 			e.Observes = append(e.Observes, ObserveRec{Name: name, Guard: st.G, Term: e.term(args[1], "vObserveInt")})
 			return nil
 		},
+		"vLemmaPoint": func(e *Exec, st *State, fn *ssa.Function, args []Val, where string) Val {
+			name, _ := e.concStr(args[0])
+			t := e.term(args[1], "vLemmaPoint")
+			if !t.IsConst() {
+				panic(&UnsupportedErr{Msg: "lemma point must be concrete at " + where})
+			}
+			f, _ := t.R.Float64()
+			e.LemmaPoints[name] = append(e.LemmaPoints[name], f)
+			return nil
+		},
 		"vRegister": func(e *Exec, st *State, fn *ssa.Function, args []Val, where string) Val { return nil },
 	}
 }
